@@ -22,6 +22,7 @@ KINDS = {
     "CategoricalDiscretizer": ("categorical",),
     "OrdinalDiscretizer": ("ordinal",),
     "StringDiscretizer": ("categorical",),
+    "ChainedDiscretizer": ("categorical",),
 }
 
 
@@ -53,6 +54,20 @@ def fitted_case(draw, classes, max_features=3, dev_modes=None, quant_pools=None,
             allow_missing=allow_missing,
         )
     )
+    if cls == "ChainedDiscretizer":
+        # one feature, string leaves, and a 2-level hierarchy derived from the values: consecutive leaves are
+        # grouped by 2-3 under G<i>, all groups under ROOT
+        case["features"] = case["features"][:1]
+        f = case["features"][0]
+        f["values"] = [f"v{n}" for n, _ in enumerate(f["values"])]
+        f["flavour"] = "str"
+        f["name"] = "c0"
+        groups, i = [], 0
+        while i < len(f["values"]):
+            size = 2 + (i // 2) % 2
+            groups.append([f"G{len(groups)}", f["values"][i : i + size]])
+            i += size
+        levels = [groups, [["ROOT", [g for g, _ in groups]]]]
     if cls in ("CategoricalDiscretizer",):
         # documented for string columns only
         for f in case["features"]:
@@ -65,8 +80,18 @@ def fitted_case(draw, classes, max_features=3, dev_modes=None, quant_pools=None,
         cfg = {"min_freq": draw(st.sampled_from(MIN_FREQS)), "copy": draw(st.booleans())}
     cfg["cls"] = cls
     cfg["n_jobs"] = 1
+    if cls == "ChainedDiscretizer":
+        cfg["levels"] = levels
     case["config"] = cfg
     return case
+
+
+def object_dropna(case) -> bool:
+    """Whether missing values receive a label (True) or stay missing (False) for the case's object."""
+    cfg = case["config"]
+    if cfg["cls"] in CARVERS:
+        return cfg.get("dropna", True)
+    return cfg["cls"] != "ChainedDiscretizer"
 
 
 def _classes():
@@ -80,8 +105,10 @@ def _classes():
         QuantitativeDiscretizer,
         StringDiscretizer,
     )
+    from AutoCarver.discretizers import ChainedDiscretizer
 
     return {
+        "ChainedDiscretizer": ChainedDiscretizer,
         "BinaryCarver": BinaryCarver,
         "ContinuousCarver": ContinuousCarver,
         "MulticlassCarver": MulticlassCarver,
@@ -141,6 +168,9 @@ def make_object(case, **override):
         return klass(ordinal_features=ordi, min_freq=cfg["min_freq"], values_orders=orders, **common)
     if cls == "StringDiscretizer":
         return klass(qualitative_features=cat, **common)
+    if cls == "ChainedDiscretizer":
+        chained = [{parent: list(children) + [parent] for parent, children in level} for level in cfg["levels"]]
+        return klass(qualitative_features=cat, min_freq=cfg["min_freq"], chained_orders=chained, unknown_handling="raise", **common)
     raise ValueError(cls)
 
 
